@@ -171,6 +171,8 @@ def check(ctx):
             cfgs[('infpen', j)] = dict(g, objective='infpen', box='wide', lb=[-4.0] * g['n_vars'], ub=[6.0] * g['n_vars'], n_agents=max(g['n_agents'], 5))
         n_hist = 0
         prev_hist = None
+        import hist_digest
+        family = []
         for k, c in cfgs.items():
             if ctx['tier'] == 'thorough' and n_hist >= 150:
                 break
@@ -325,6 +327,33 @@ def check(ctx):
                     if hasattr(h, key) and hasattr(prev_hist, key) and same_attr(getattr(prev_hist, key), getattr(h, key)):
                         check_get(C, drv, L, prev_hist, key, f"{c['kind']}-reused-instance")
             prev_hist = h
+            if len(family) < 4 and all(hist_digest.digest(h, L['Node']) != hist_digest.digest(g_, L['Node']) for g_, _ in family):
+                family.append((h, c))
+        # several histories saved side by side in one directory (a hyperparameter sweep, one file per seed): every name given
+        # to save() reads back, through load() of that same name, the history that was saved under it
+        import shutil as _sh
+        for names in (['run.0', 'run.1', 'run.2'], ['sweep_w0.5', 'sweep_w0.7', 'sweep_w0.9'], ['task.full', 'task.best'],
+                      ['a.b.pkl', 'a.c.pkl'], ['plain_a', 'plain_b'], ['x1.v', 'x2.v'], ['h.pkl', 'h.pkl.bak', 'h']):
+            if len(family) < 2:
+                break
+            d_ = os.path.join(scratch, 'side_by_side')
+            os.makedirs(d_, exist_ok=True)
+            rpn = dict(how='saveload-names', names=names, cfgs=[c_ for _, c_ in family[:len(names)]])
+            try:
+                used = list(zip(names, family))
+                for nm_, (h_, _) in used:
+                    h_.save(os.path.join(d_, nm_))
+                for nm_, (h_, _) in used:
+                    hl = L['History']()
+                    hl.load(os.path.join(d_, nm_))
+                    if hist_digest.digest(hl, L['Node']) != hist_digest.digest(h_, L['Node']):
+                        C.issue('value-differs-after-load', 'oracle', rpn, name=nm_)
+                        break
+            except Exception as ex:
+                C.issue('save-load-raised', 'oracle', rpn, error=type(ex).__name__ + ': ' + str(ex)[:80])
+            finally:
+                _sh.rmtree(d_, ignore_errors=True)
+            C.case(key=('saveload-names', tuple(names)), nontrivial=True, kind='saveload-names')
         C.extra['histories'] = n_hist
     finally:
         drv.close()
